@@ -79,9 +79,11 @@ func simplifyCurve(curve Path,
 
 	i := 0
 	for {
+		verifSimplifyStep(len(out), len(curve))
 		out = append(out, curve[i])
 		breakTime := false
 		for j := i + 2; j < len(curve); j++ {
+			verifSimplifyStep(len(out), len(curve))
 			breakTime2 := false
 			for k := i + 1; k < j; k++ {
 				d := distPointToSegment(curve[k], curve[i], curve[j])
